@@ -43,7 +43,7 @@ func init() {
 		New:      func() any { return &C02Case{} },
 		Check:    func(c any) Result { return checkC02(c.(*C02Case)) },
 		Quick:    3000,
-		Thorough: 25000,
+		Thorough: 300000,
 	})
 }
 
